@@ -5,6 +5,7 @@ package main
 // Map keys are sorted bytewise before printing (Go map order never crosses the protocol).
 
 import (
+	"reflect"
 	"fmt"
 	"math"
 	"math/rand"
@@ -752,4 +753,180 @@ func c05ApplyWhereColumn(rng *rand.Rand, w *c05PWhere, row map[string]interface{
 	}
 	c05SetPath(row, w.col, nil, true)
 	return "where-missing"
+}
+
+// c05Typify turns a JSON-like value into the same value held in typed Go containers: a map whose values are all ints
+// becomes a map[string]int (float64 / string / bool alike), a slice likewise, every other container keeps
+// interface{} elements; containers with an odd number of elements are held through a pointer. Scalars are unchanged.
+// The field-path resolver must read such a value exactly as it reads the JSON-like one.
+func c05Typify(v interface{}) interface{} {
+	switch x := v.(type) {
+	case map[string]interface{}:
+		kinds := map[string]bool{}
+		for _, e := range x {
+			kinds[fmt.Sprintf("%T", e)] = true
+		}
+		var out interface{}
+		switch {
+		case len(x) > 0 && len(kinds) == 1 && kinds["int"]:
+			m := map[string]int{}
+			for k, e := range x {
+				m[k] = e.(int)
+			}
+			out = m
+			if len(x)%2 == 1 {
+				return &m
+			}
+		case len(x) > 0 && len(kinds) == 1 && kinds["float64"]:
+			m := map[string]float64{}
+			for k, e := range x {
+				m[k] = e.(float64)
+			}
+			out = m
+		case len(x) > 0 && len(kinds) == 1 && kinds["string"]:
+			m := map[string]string{}
+			for k, e := range x {
+				m[k] = e.(string)
+			}
+			out = m
+		case len(x) > 0 && len(kinds) == 1 && kinds["bool"]:
+			m := map[string]bool{}
+			for k, e := range x {
+				m[k] = e.(bool)
+			}
+			out = m
+		default:
+			m := map[string]interface{}{}
+			for k, e := range x {
+				m[k] = c05Typify(e)
+			}
+			out = m
+			if len(x)%2 == 1 {
+				return &m
+			}
+		}
+		return out
+	case []interface{}:
+		kinds := map[string]bool{}
+		for _, e := range x {
+			kinds[fmt.Sprintf("%T", e)] = true
+		}
+		switch {
+		case len(x) > 0 && len(kinds) == 1 && kinds["int"]:
+			l := make([]int, len(x))
+			for i, e := range x {
+				l[i] = e.(int)
+			}
+			return l
+		case len(x) > 0 && len(kinds) == 1 && kinds["string"]:
+			l := make([]string, len(x))
+			for i, e := range x {
+				l[i] = e.(string)
+			}
+			return l
+		case len(x) > 0 && len(kinds) == 1 && kinds["float64"]:
+			l := make([]float64, len(x))
+			for i, e := range x {
+				l[i] = e.(float64)
+			}
+			if len(x)%2 == 1 {
+				return &l
+			}
+			return l
+		default:
+			l := make([]interface{}, len(x))
+			for i, e := range x {
+				l[i] = c05Typify(e)
+			}
+			if len(x)%2 == 1 {
+				return &l
+			}
+			return l
+		}
+	}
+	return v
+}
+
+// c05Untypify is the inverse view: any typed container / pointer met in a looked-up value, as JSON-like value
+func c05Untypify(v interface{}) interface{} {
+	if v == nil {
+		return nil
+	}
+	rv := reflect.ValueOf(v)
+	for rv.Kind() == reflect.Ptr {
+		if rv.IsNil() {
+			return nil
+		}
+		rv = rv.Elem()
+	}
+	switch rv.Kind() {
+	case reflect.Map:
+		if rv.Type().Key().Kind() != reflect.String {
+			return v
+		}
+		m := map[string]interface{}{}
+		for _, k := range rv.MapKeys() {
+			m[k.String()] = c05Untypify(rv.MapIndex(k).Interface())
+		}
+		return m
+	case reflect.Slice:
+		l := make([]interface{}, rv.Len())
+		for i := range l {
+			l[i] = c05Untypify(rv.Index(i).Interface())
+		}
+		return l
+	}
+	return rv.Interface()
+}
+
+// c05GenHomog: like c05GenValue, but a container often holds elements of one scalar kind only (so that c05Typify
+// finds typed containers to build)
+func c05GenHomog(rng *rand.Rand, depth int) interface{} {
+	scalarOf := func(kind int) interface{} {
+		switch kind {
+		case 0:
+			return rng.Intn(13) - 4
+		case 1:
+			return float64(rng.Intn(33)-8) / 4
+		case 2:
+			return c05StrPool[rng.Intn(len(c05StrPool))]
+		default:
+			return rng.Intn(2) == 0
+		}
+	}
+	if depth <= 0 {
+		return c05GenScalar(rng)
+	}
+	switch k := rng.Intn(20); {
+	case k < 5: // homogeneous map
+		kind, n := rng.Intn(4), 1+rng.Intn(3)
+		m := map[string]interface{}{}
+		for i := 0; i < n; i++ {
+			m[c05MapKeys[rng.Intn(len(c05MapKeys))]] = scalarOf(kind)
+		}
+		return m
+	case k < 8: // homogeneous list
+		kind, n := rng.Intn(3), 1+rng.Intn(3)
+		l := make([]interface{}, n)
+		for i := range l {
+			l[i] = scalarOf(kind)
+		}
+		return l
+	case k < 13:
+		n := 1 + rng.Intn(3)
+		m := map[string]interface{}{}
+		for i := 0; i < n; i++ {
+			m[c05MapKeys[rng.Intn(len(c05MapKeys))]] = c05GenHomog(rng, depth-1)
+		}
+		return m
+	case k < 16:
+		n := rng.Intn(4)
+		l := make([]interface{}, n)
+		for i := range l {
+			l[i] = c05GenHomog(rng, depth-1)
+		}
+		return l
+	default:
+		return c05GenScalar(rng)
+	}
 }
